@@ -5,10 +5,10 @@
 //! while alive.  One logical shard; a reader/writer count replaces the shard RwLock, and taking a
 //! conflicting lock on the same thread PANICS (a real DashMap would self-deadlock).
 //!
-//! Storage is a fixed table of `capacity` slots (the `capacity` argument of
-//! `with_capacity_and_shard_amount`, at least 1) so that every loop has a constant trip count for
+//! Storage is four named slots, of which the first min(capacity, 4) are usable (`capacity` is the
+//! argument of `with_capacity_and_shard_amount`), so there is no loop and no symbolic address for
 //! CBMC; inserting into a full table panics ("stand-in capacity exceeded") - harnesses must stay
-//! inside the capacity they construct.  Iteration visits occupied slots in slot order; harnesses
+//! inside the capacity they construct (at most 3 residents plus one incoming key).  Iteration visits occupied slots in slot order; harnesses
 //! obtain other orders by placing entries in different slots.
 use std::cell::{Cell, UnsafeCell};
 use std::collections::hash_map::RandomState;
@@ -16,8 +16,16 @@ use std::hash::Hash;
 use std::marker::PhantomData;
 use std::ops::{Deref, DerefMut};
 
+pub const SLOTS: usize = 4;
+
 pub struct DashMap<K, V, S = RandomState> {
-    slots: UnsafeCell<Vec<Option<(K, V)>>>,
+    // four separately named slots instead of an array or a Vec: every access is at a constant
+    // address, so CBMC never has to reason about a symbolic offset into a heap object
+    s0: UnsafeCell<Option<(K, V)>>,
+    s1: UnsafeCell<Option<(K, V)>>,
+    s2: UnsafeCell<Option<(K, V)>>,
+    s3: UnsafeCell<Option<(K, V)>>,
+    cap: usize,
     state: Cell<isize>, // >0 readers, -1 writer
     _s: PhantomData<S>,
 }
@@ -25,15 +33,13 @@ unsafe impl<K: Send, V: Send, S> Send for DashMap<K, V, S> {}
 unsafe impl<K: Send + Sync, V: Send + Sync, S> Sync for DashMap<K, V, S> {}
 
 impl<K: Eq + Hash, V> DashMap<K, V, RandomState> {
-    pub fn new() -> Self { Self::with_capacity_and_shard_amount(4, 2) }
+    pub fn new() -> Self { Self::with_capacity_and_shard_amount(SLOTS, 2) }
     pub fn with_capacity_and_shard_amount(capacity: usize, shard_amount: usize) -> Self {
         assert!(shard_amount > 1);
         assert!(shard_amount.is_power_of_two());
-        let cap = if capacity == 0 { 1 } else { capacity };
-        let mut v = Vec::with_capacity(cap);
-        let mut i = 0;
-        while i < cap { v.push(None); i += 1; }
-        DashMap { slots: UnsafeCell::new(v), state: Cell::new(0), _s: PhantomData }
+        let cap = if capacity == 0 { 1 } else if capacity > SLOTS { SLOTS } else { capacity };
+        DashMap { s0: UnsafeCell::new(None), s1: UnsafeCell::new(None), s2: UnsafeCell::new(None), s3: UnsafeCell::new(None),
+                  cap, state: Cell::new(0), _s: PhantomData }
     }
 }
 impl<K: Eq + Hash, V, S> DashMap<K, V, S> {
@@ -42,37 +48,43 @@ impl<K: Eq + Hash, V, S> DashMap<K, V, S> {
     fn lock_exclusive(&self) { if self.state.get() != 0 { panic!("dashmap stand-in: exclusive lock while locked (self-deadlock)"); } self.state.set(-1); }
     fn unlock_exclusive(&self) { self.state.set(0); }
     #[allow(clippy::mut_from_ref)]
-    fn table(&self) -> &mut Vec<Option<(K, V)>> { unsafe { &mut *self.slots.get() } }
-    fn position(&self, key: &K) -> Option<usize> {
-        let t = self.table();
-        let mut i = 0;
-        while i < t.len() {
-            if let Some(e) = &t[i] { if e.0 == *key { return Some(i); } }
-            i += 1;
+    fn slot(&self, i: usize) -> &mut Option<(K, V)> {
+        unsafe {
+            match i { 0 => &mut *self.s0.get(), 1 => &mut *self.s1.get(), 2 => &mut *self.s2.get(), 3 => &mut *self.s3.get(),
+                      _ => panic!("dashmap stand-in: slot index out of range") }
         }
+    }
+    fn holds(&self, i: usize, key: &K) -> bool { match self.slot(i) { Some(e) => e.0 == *key, None => false } }
+    fn position(&self, key: &K) -> Option<usize> {
+        if self.holds(0, key) { return Some(0); }
+        if self.cap > 1 && self.holds(1, key) { return Some(1); }
+        if self.cap > 2 && self.holds(2, key) { return Some(2); }
+        if self.cap > 3 && self.holds(3, key) { return Some(3); }
         None
     }
     fn free_slot(&self) -> Option<usize> {
-        let t = self.table();
-        let mut i = 0;
-        while i < t.len() { if t[i].is_none() { return Some(i); } i += 1; }
+        if self.slot(0).is_none() { return Some(0); }
+        if self.cap > 1 && self.slot(1).is_none() { return Some(1); }
+        if self.cap > 2 && self.slot(2).is_none() { return Some(2); }
+        if self.cap > 3 && self.slot(3).is_none() { return Some(3); }
         None
     }
     /// verification-only: place an entry in a chosen slot (lets a harness choose the iteration order)
     pub fn verif_insert_at(&self, slot: usize, key: K, value: V) {
         self.lock_exclusive();
+        assert!(slot < self.cap);
         assert!(self.position(&key).is_none());
-        assert!(self.table()[slot].is_none());
-        self.table()[slot] = Some((key, value));
+        assert!(self.slot(slot).is_none());
+        *self.slot(slot) = Some((key, value));
         self.unlock_exclusive();
     }
     pub fn insert(&self, key: K, value: V) -> Option<V> {
         self.lock_exclusive();
         let r = match self.position(&key) {
-            Some(i) => { let slot = self.table()[i].as_mut().unwrap(); Some(std::mem::replace(&mut slot.1, value)) }
+            Some(i) => { let e = self.slot(i).as_mut().unwrap(); Some(std::mem::replace(&mut e.1, value)) }
             None => {
                 match self.free_slot() {
-                    Some(i) => { self.table()[i] = Some((key, value)); }
+                    Some(i) => { *self.slot(i) = Some((key, value)); }
                     None => panic!("dashmap stand-in capacity exceeded"),
                 }
                 None
@@ -83,7 +95,7 @@ impl<K: Eq + Hash, V, S> DashMap<K, V, S> {
     }
     pub fn remove(&self, key: &K) -> Option<(K, V)> {
         self.lock_exclusive();
-        let r = match self.position(key) { Some(i) => self.table()[i].take(), None => None };
+        let r = match self.position(key) { Some(i) => self.slot(i).take(), None => None };
         self.unlock_exclusive();
         r
     }
@@ -96,29 +108,25 @@ impl<K: Eq + Hash, V, S> DashMap<K, V, S> {
     pub fn get<'a>(&'a self, key: &K) -> Option<mapref::one::Ref<'a, K, V, S>> {
         self.lock_shared();
         match self.position(key) {
-            Some(i) => { let e = self.table()[i].as_ref().unwrap(); Some(mapref::one::Ref { map: self, k: &e.0, v: &e.1 }) }
+            Some(i) => { let e = self.slot(i).as_ref().unwrap(); Some(mapref::one::Ref { map: self, k: &e.0, v: &e.1 }) }
             None => { self.unlock_shared(); None }
         }
     }
     pub fn get_mut<'a>(&'a self, key: &K) -> Option<mapref::one::RefMut<'a, K, V, S>> {
         self.lock_exclusive();
         match self.position(key) {
-            Some(i) => { let e = self.table()[i].as_mut().unwrap(); Some(mapref::one::RefMut { map: self, k: &e.0, v: &mut e.1 }) }
+            Some(i) => { let e = self.slot(i).as_mut().unwrap(); Some(mapref::one::RefMut { map: self, k: &e.0, v: &mut e.1 }) }
             None => { self.unlock_exclusive(); None }
         }
     }
     pub fn clear(&self) {
         self.lock_exclusive();
-        let t = self.table();
-        let mut i = 0;
-        while i < t.len() { t[i] = None; i += 1; }
+        *self.slot(0) = None; *self.slot(1) = None; *self.slot(2) = None; *self.slot(3) = None;
         self.unlock_exclusive();
     }
     pub fn len(&self) -> usize {
         self.lock_shared();
-        let t = self.table();
-        let (mut i, mut n) = (0, 0);
-        while i < t.len() { if t[i].is_some() { n += 1; } i += 1; }
+        let n = self.slot(0).is_some() as usize + self.slot(1).is_some() as usize + self.slot(2).is_some() as usize + self.slot(3).is_some() as usize;
         self.unlock_shared();
         n
     }
@@ -165,11 +173,10 @@ pub mod iter {
     impl<'a, K: Eq + Hash, V, S> Iterator for Iter<'a, K, V, S> {
         type Item = mapref::multiple::RefMulti<'a, K, V, S>;
         fn next(&mut self) -> Option<Self::Item> {
-            let t = self.map.table();
-            while self.next < t.len() {
+            while self.next < self.map.cap {
                 let i = self.next;
                 self.next += 1;
-                if let Some(e) = &t[i] {
+                if let Some(e) = self.map.slot(i).as_ref() {
                     self.map.lock_shared();
                     return Some(mapref::multiple::RefMulti { map: self.map, k: &e.0, v: &e.1 });
                 }
